@@ -179,7 +179,7 @@ CHECKS["C14"] = {
     "fuzz": [("FuzzC14Name", "90s")],
     "level": "exploration",
     "technique": "property-based testing (rapid): name grammar incl. names derived from earlier addresses of the same case x type x write list on three peers; determinism/injectivity table, parse round trip, manifest read-back, create/overwrite/open/local-only outcomes",
-    "rule": "rapid draws 2-4 (name, type, write list) tuples per case; names come from a pool of 30 (ASCII, unicode, spaces, nested, empty, '.', '..', 'a/../b', leading/trailing/double slashes, and names built from the first tuple's address root: '<root>', '<root>/x', '/orbitdb/<root>/x', '../<root>/x', 'y/../../<root>/z', ...) or a random string over [a-zA-Z0-9._/ -], or a composition of 1-6 segments from {'..', '.', '', a, x, db, orbitdb, <root>} with zero, one or two leading slashes; write list in {none, *, [p0], [p0,p1], [p1,p2], [p0,p1,p0], [p2,p1,p2,p0,p1]} (ids may be listed twice); the second peer opens every database of the case with one shared options value, as callers do. For every tuple: DetermineAddress twice on one peer and (explicit list) on a second peer must agree (same address, or refused on both); the printed address parses back to the same root, path and text; the root block is a manifest recording exactly this name and type; within the case equal inputs (name, type, effective write list) give equal addresses and different inputs different ones; Create returns a store at that address and of that type, a second Create is refused, with Overwrite accepted; Open on another peer gives the same type and GetAuthorizedByRole(write) == the list given (or the creator's id); a local-only Open is refused on a peer that never saw the database and accepted on the creator. A refusal by DetermineAddress/Create is accepted for any name. non-trivial = an accepted name containing a '.'/'..' segment or embedding an earlier root; distinct = SHA-1 of the case JSON. Thorough: native fuzzing of the name string (FuzzC14Name, seeded with the pool) for a wall-clock budget",
+    "rule": "rapid draws 2-4 (name, type, write list) tuples per case; names come from a pool of 30 (ASCII, unicode, spaces, nested, empty, '.', '..', 'a/../b', leading/trailing/double slashes, and names built from the first tuple's address root: '<root>', '<root>/x', '/orbitdb/<root>/x', '../<root>/x', 'y/../../<root>/z', ...) or a random string over [a-zA-Z0-9._/ -], or a composition of 1-6 segments from {'..', '.', '', a, x, db, orbitdb, <root>} with zero, one or two leading slashes; write list in {none, *, [p0], [p0,p1], [p1,p2], [p0,p1,p0], [p2,p1,p2,p0,p1]} (ids may be listed twice); the second peer opens every database of the case with one shared options value, as callers do. For every tuple: DetermineAddress twice on one peer and (explicit list) on a second peer must agree (same address, or refused on both); the printed address parses back to the same root, path and text; the root block is a manifest recording exactly this name and type; within the case equal inputs (name, type, effective write list) give equal addresses and different inputs different ones; Create returns a store at that address and of that type, a second Create is refused, with Overwrite accepted; Open on another peer gives the same type and GetAuthorizedByRole(write) == the list given (or the creator's id); a local-only Open is refused on a peer that never saw the database and accepted on the creator; on a third peer the typed helper (Log / KeyValue / Docs) of the recorded type opens the address as that type and a helper of another type is refused; a typed helper given a fresh name creates the database at the address DetermineAddress computes for it. A refusal by DetermineAddress/Create is accepted for any name. non-trivial = an accepted name containing a '.'/'..' segment or embedding an earlier root; distinct = SHA-1 of the case JSON. Thorough: native fuzzing of the name string (FuzzC14Name, seeded with the pool) for a wall-clock budget",
     "level_text": "Generated names/configurations; injectivity is checked within each case, not globally.",
     "level_note": "Persistence is the harness's recorded datastore behind cache.Interface (same keys as cacheleveldown). Access controller type ipfs.",
     "design_ref": "5/C14",
